@@ -111,6 +111,33 @@ func (s *Shared) more(enc age.Recipient) error {
 		}
 		s.Files, s.Plains = append(s.Files, f), append(s.Plains, pt)
 	}
+	// files for several recipients in which this identity's stanza stands first, in the middle and last, among
+	// one to four stanzas for other people (what an identity remembers about one header must not steer the next)
+	if s.Kind != "scrypt" {
+		for k := 0; k < 8; k++ {
+			var rs []age.Recipient
+			for j := 0; j < 1+k%4; j++ {
+				o, err := age.GenerateX25519Identity()
+				if err != nil {
+					return err
+				}
+				rs = append(rs, o.Recipient())
+			}
+			at := (k * 3) % (len(rs) + 1)
+			rs = append(rs[:at], append([]age.Recipient{enc}, rs[at:]...)...)
+			pt := append([]byte(fmt.Sprintf("shared file %d ", k)), s.Plain...)
+			var buf bytes.Buffer
+			w, err := age.Encrypt(&buf, rs...)
+			if err != nil {
+				return err
+			}
+			w.Write(pt)
+			if err := w.Close(); err != nil {
+				return err
+			}
+			s.Files, s.Plains = append(s.Files, buf.Bytes()), append(s.Plains, pt)
+		}
+	}
 	var decoy age.Identity
 	switch s.Kind {
 	case "x25519":
